@@ -358,9 +358,6 @@ def run(ctx: Ctx):
     if not ctx.quick:
         from ..fuzz import run_fuzz
         run_fuzz(ctx, "c20", seconds=240)
-    # once more in an interpreter that does not execute assert statements (python -O)
-    from ..common import sub_pass
-    sub_pass(ctx, ["-O"], "python-O")
 
 
 def replay(ctx: Ctx, case):
